@@ -243,6 +243,56 @@ def f(a, b):
 ''', [(1, 0), (1, 1)], False),
 ]
 
+# (name, source, inputs, expect the loop to be rewritten) -- normalise.break_to_flag
+BREAK_FLAG = [
+    ('break-last', '''
+def f(rays, opaque):
+    seen = []
+    for ray in rays:
+        for p in ray:
+            seen.append(p)
+            if p in opaque:
+                break
+    return seen
+''', [([[1, 2, 3], [4, 5]], {2}), ([[1, 2, 3]], set()), ([[]], {1}), ([[1, 1, 2]], {1})], True),
+    ('break-middle', '''
+def f(rays, opaque):
+    seen = []
+    after = []
+    for ray in rays:
+        for p in ray:
+            seen.append(p)
+            if p in opaque:
+                break
+            after.append(p)
+    return seen, after
+''', [([[1, 2, 3], [4, 5]], {2, 4}), ([[1, 2, 3]], set())], True),
+    ('break-with-else', '''
+def f(rays, opaque):
+    seen = []
+    for ray in rays:
+        for p in ray:
+            if p in opaque:
+                break
+            seen.append(p)
+        else:
+            seen.append(-1)
+    return seen
+''', [([[1, 2, 3], [4, 5]], {2})], False),
+    ('two-breaks', '''
+def f(rays, opaque):
+    seen = []
+    for ray in rays:
+        for p in ray:
+            if p in opaque:
+                break
+            seen.append(p)
+            if p > 3:
+                break
+    return seen
+''', [([[1, 2, 3], [4, 5]], {2})], False),
+]
+
 SIMPLIFY = [
     ('aliases-and-constants', '''
 class S:
@@ -466,6 +516,24 @@ def run() -> Dict[str, Any]:
             errs.append(f'{name}: rewritten={changed}, expected {expect}')
         a = _run(src, '', inputs)
         b = _run(src, ast.unparse(new), inputs)
+        if a != b:
+            errs.append(f'{name}: results differ: {a} vs {b}')
+    from .normalise import break_to_flag
+    for name, src, inputs, expect in BREAK_FLAG:
+        n += 1
+        tree = ast.parse(src)
+        fn = _fn(tree)
+        outer = [x for x in fn.body if isinstance(x, ast.For)][0]
+        inner = [x for x in outer.body if isinstance(x, ast.For)][0]
+        new = break_to_flag(inner, '__lit')
+        if (new is not None) != expect:
+            errs.append(f'{name}: rewritten={new is not None}, expected {expect}')
+        if new is not None:
+            i = outer.body.index(inner)
+            outer.body[i:i + 1] = new
+            ast.fix_missing_locations(fn)
+        a = _run(src, '', inputs)
+        b = _run(src, ast.unparse(fn), inputs)
         if a != b:
             errs.append(f'{name}: results differ: {a} vs {b}')
     for name, src, inputs in SIMPLIFY:
